@@ -116,6 +116,22 @@ def search(ctx):
             report("position:feedback", "feedback term exceeds 30 % of weight", inp, np.linalg.norm(pterm) - 0.3 * M_VEH * G, 1e-9)
         if not abs(zi2) <= 0.0 + 1e-15:
             report("position:integrator", "height integrator leaves its limit", inp, abs(zi2), 0)
+    # ---- SE2(3) outer loop: same bounds (feedback term <= 30 % of the weight m g, whatever the trim), integrator within its limit
+    spc = F("Ref", "loglinear.se23_position_control")
+    for it in range(n):
+        trim = rng.uniform(5, 40); sc = rng.choice([0.1, 1.0, 10.0, 100.0])
+        zeta = np.concatenate([rng.standard_normal(6) * sc, rng.standard_normal(3) * 0.5]); at = rng.standard_normal(3)
+        yaw = rng.uniform(-np.pi, np.pi); qc = np.array([np.cos(yaw / 2), 0, 0, np.sin(yaw / 2)]); zi = rng.standard_normal() * 5; dt = 0.01
+        kpa = rng.uniform(0.5, 5, 3)
+        nT, qr, zi2 = spc(trim, kpa, zeta, at, qc, zi, dt); ev += 1
+        nT = float(nT); qr = np.array(qr).ravel()
+        inp = {"thrust_trim": trim, "kp": kpa.tolist(), "zeta": zeta.tolist(), "at_w": at.tolist(), "qc": qc.tolist(), "z_i": zi}
+        T = nT * nl.quat_to_R(qr)[:, 2]
+        pterm = T - (trim + 0.05 * zi) * np.array([0, 0, 1.0])
+        if nT > 1e-3 and not np.linalg.norm(pterm) <= 0.3 * M_VEH * G * (1 + 1e-9) + 1e-9:
+            report("se23_position:feedback", "feedback term of the SE2(3) outer loop exceeds 30 % of weight", inp, np.linalg.norm(pterm) - 0.3 * M_VEH * G, 1e-9)
+        if not abs(float(zi2)) <= 0.0 + 1e-15:
+            report("se23_position:integrator", "height integrator of the SE2(3) outer loop leaves its limit", inp, abs(float(zi2)), 0)
     # ---- attitude laws
     ac = F("Ctrl", "rdd2.attitude_control"); sac = F("Ctrl", "loglinear.so3_attitude_control"); se = F("Ctrl", "loglinear.se23_error")
     expq = F("SO3", "SO3Quat.exp") if False else None
